@@ -274,10 +274,12 @@ example : RebuildGuards witnessOk ["x"] ∧ RebuildGuards witnessOk [] :=
 /-- **string_roundtrip** — the text `marshalValue` prints for a string (Go's JSON escaping: `\"`,
     `\\`, `\n`, `\r`, `\t`, `\b`, `\f`, `\u00XX` for other control characters, `\u003c` `\u003e`
     `\u0026` `\u2028` `\u2029`, everything else raw) lexes, as a GraphQL quoted string followed by
-    anything, back to exactly the string — for every string whose code points are at most U+FFFF. -/
+    anything, back to exactly the string — for every string whose code points are at most U+FFFF
+    (`Char.ofNat 34` is the closing quote). -/
 theorem string_roundtrip (s : String) (h : ∀ c ∈ s.toList, c.toNat ≤ 0xFFFF) (rest : List Char) :
-    lexString (jsonEscape s.toList ++ '"' :: rest) [] = some (s.toList, rest) := by
-  simpa using lexString_jsonEscape s.toList h rest []
+    lexString (jsonEscape s.toList ++ Char.ofNat 34 :: rest) [] = some (s.toList, rest) := by
+  have := lexString_jsonEscape s.toList h rest []
+  simpa using this
 
 /-- **F-10b negation witness** — a default string containing U+1F600 is printed raw and that text
     is not a literal (U+1F600 is not a June-2018 SourceCharacter), whatever the fuel. -/
@@ -305,6 +307,20 @@ theorem default_roundtrip {ι : Type} (d : SchemaDef ι) (hn : NamesOk d) (t : T
   refine ⟨litOf v, ?_, coerce_litOf d v t hnf⟩
   have := parse_marshal d hn v t s fuel [] hc hm hf (by intro c hc; simp at hc)
   simpa using this
+
+/-- **default_value_complete** — for an argument / input field / directive argument whose
+    configured default `v` is of the covered classes and in coercion normal form (nulls anywhere a
+    nullable position allows — fix patch 03 —, nested lists and input objects): the `defaultValue`
+    resolver does not fail, it prints a text, and that text is a literal that coerces back to `v`.
+    (`BuiltinsPresent`: Int, ID, String, Boolean are in the type table as scalars.) -/
+theorem default_value_complete {ι : Type} (d : SchemaDef ι) (hn : NamesOk d) (hb : BuiltinsPresent d)
+    (t : TRef) (v : Value) (hc : covered v = true) (hnf : nf d t v = true) :
+    ∃ s, defaultData d t (some v) = .text s
+      ∧ ∀ fuel, need v ≤ fuel → ∃ lit, parseLit fuel s.toList = some (lit, []) ∧ coerceLit d t lit = some v := by
+  obtain ⟨s, hs⟩ := marshal_defined d hb v t hnf
+  refine ⟨s, by simp [defaultData, hs], ?_⟩
+  intro fuel hf
+  exact default_roundtrip d hn t v s hc hnf hs fuel hf
 
 /-- Non-vacuity of `default_roundtrip`: `[null, "a\"b\n<"]` at type `[String]` over the witness
     schema extended with `String`. -/
